@@ -1,5 +1,5 @@
 (* C17 -- Router dispatches to a longest matching route, else the default.
-   Statements only; proofs in Router/Proofs.v.  Strings are byte lists; [L] is
+   Statements only; proofs in Router/Proofs.v and Router/Fine.v.  Strings are byte lists; [L] is
    the denotational language of the modelled class of regular expressions;
    Go's regexp package is trusted to implement it (see notes/C17.md). *)
 From Coq Require Import ZArith List Bool Permutation.
